@@ -334,6 +334,8 @@ def describe_tables(call, df=None):
         d['observed'] = df.to_dict(orient='split')
     elif df is not None:
         d['observed_exception'] = '%s: %s' % (type(df).__name__, df)
+    if 'earlier_call_on_same_filter_object' in call:
+        d['earlier_call_on_same_filter_object'] = call['earlier_call_on_same_filter_object']
     return d
 
 
@@ -346,6 +348,17 @@ def run_tables(seed, n, which=None, empty_frac=0.1):
             call = empty_tables_call(rng, rng.choice(which) if which else None)
         else:
             call = gen_tables_call(rng, rng.choice(which) if which else None)
+        # a third of the calls use a filter object that has ALREADY served a filter_tables call on other
+        # tables (own PRNG: the recorded stream of cases is unchanged): a filter object must carry nothing
+        # from one call into the next
+        rng_w = random.Random(seed * 7919 + i)
+        if rng_w.random() < 0.34:
+            Lw, Rw, names_w = T.gen_tables(rng_w, call['kind'])
+            run_tables_call(dict(call, L=Lw, R=Rw, names=names_w, njobs=1))
+            call['earlier_call_on_same_filter_object'] = {'names': list(names_w), 'njobs': 1,
+                                                          'ltable': Lw.to_dict(orient='split'),
+                                                          'rtable': Rw.to_dict(orient='split')}
+            dist.setdefault('reused_filter_object', {'yes': 0})['yes'] += 1
         df = run_tables_call(call)
         calls.append(call)
         dfs.append(df)
